@@ -20,6 +20,7 @@ import (
 	"runtime"
 	"strconv"
 	"sync"
+	"syscall"
 	"time"
 )
 
@@ -31,6 +32,20 @@ type Ctx struct {
 	Evals    int64
 	MarkAll  bool
 	idx      int
+	skip     map[string]bool
+}
+
+// RiskyLabel marks a risky sub-case (e.g. one decode target) of the current case. It returns false if the
+// parent told this worker to skip that sub-case because it already crashed a previous worker.
+func (c *Ctx) RiskyLabel(label string) bool {
+	if c.skip[fmt.Sprintf("%d/%s", c.idx, label)] {
+		return false
+	}
+	b, _ := json.Marshal(map[string]any{"t": "r", "i": c.idx, "l": label})
+	c.w.Write(b)
+	c.w.WriteByte('\n')
+	c.w.Flush()
+	return true
 }
 
 // Risky flushes a marker so a fatal crash in the current case is attributed to it.
@@ -79,10 +94,26 @@ func MaybeWorker(families []Family) {
 		return
 	}
 	// args: --worker family tier lo hi markall
+	// Address-space limit: a multi-gigabyte allocation aborts this worker quickly (and is attributed to the
+	// marked case) instead of exhausting the machine.
+	lim := uint64(3 << 30)
+	if v := os.Getenv("VERIF_WORKER_AS"); v != "" {
+		if n, err := strconv.ParseUint(v, 10, 64); err == nil {
+			lim = n
+		}
+	}
+	_ = syscall.Setrlimit(syscall.RLIMIT_AS, &syscall.Rlimit{Cur: lim, Max: lim})
 	name, tier := os.Args[2], os.Args[3]
 	lo, _ := strconv.Atoi(os.Args[4])
 	hi, _ := strconv.Atoi(os.Args[5])
-	ctx := &Ctx{w: bufio.NewWriterSize(os.Stdout, 1<<16), distinct: map[string]struct{}{}, Extra: map[string]int64{}, MarkAll: os.Args[6] == "1"}
+	ctx := &Ctx{w: bufio.NewWriterSize(os.Stdout, 1<<16), distinct: map[string]struct{}{}, Extra: map[string]int64{}, MarkAll: os.Args[6] == "1", skip: map[string]bool{}}
+	if len(os.Args) > 7 {
+		var sk []string
+		_ = json.Unmarshal([]byte(os.Args[7]), &sk)
+		for _, k := range sk {
+			ctx.skip[k] = true
+		}
+	}
 	for _, f := range families {
 		if f.Name == name {
 			f.Run(ctx, tier, lo, hi)
@@ -173,33 +204,41 @@ func Run(f Family, tier string, opt Options) *Result {
 	return res
 }
 
-// runRange runs [lo,hi) in a subprocess; on a crash or hang it attributes and resumes after the culprit.
+// runRange runs [lo,hi) in a subprocess; on a crash or hang it attributes and resumes at the culprit case
+// with the culprit sub-case added to the skip list.
 func runRange(f Family, tier string, lo, hi int, opt Options, res *Result, mu *sync.Mutex) {
 	markAll := false
+	var skip []string
 	for lo < hi {
-		last, lastMarked, done, killed := runOnce(f, tier, lo, hi, markAll, opt, res, mu)
+		lastMarked, label, done, killed := runOnce(f, tier, lo, hi, markAll, skip, opt, res, mu)
 		if done {
 			return
 		}
-		// crashed or hung
 		if lastMarked >= lo {
-			what := "fatal runtime abort (unrecoverable crash) while decoding/handling this case"
+			what := "fatal runtime abort (out of memory / unrecoverable crash) while handling this case"
 			key := "fatal-crash"
 			if killed {
 				what = fmt.Sprintf("no progress for %v (hang) on this case", opt.CaseTimeout)
 				key = "hang"
 			}
+			if label != "" {
+				key += ":" + label
+				what += " [" + label + "]"
+			}
 			mu.Lock()
 			res.Crashes++
-			res.Violations = append(res.Violations, Violation{Idx: lastMarked, Key: key, What: what, Replay: map[string]any{"family": f.Name, "index": lastMarked, "tier": tier}})
+			res.Violations = append(res.Violations, Violation{Idx: lastMarked, Key: key, What: what, Replay: map[string]any{"family": f.Name, "index": lastMarked, "label": label, "tier": tier}})
 			mu.Unlock()
-			lo = lastMarked + 1
+			if label != "" {
+				skip = append(skip, fmt.Sprintf("%d/%s", lastMarked, label))
+				lo = lastMarked
+			} else {
+				lo = lastMarked + 1
+			}
 			markAll = false
 			continue
 		}
-		_ = last
 		if markAll {
-			// crashed before any marker even in mark-all mode: harness problem
 			fmt.Fprintf(os.Stderr, "HARNESS-ERROR: worker for %s [%d,%d) died before first case\n", f.Name, lo, hi)
 			os.Exit(2)
 		}
@@ -207,12 +246,13 @@ func runRange(f Family, tier string, lo, hi int, opt Options, res *Result, mu *s
 	}
 }
 
-func runOnce(f Family, tier string, lo, hi int, markAll bool, opt Options, res *Result, mu *sync.Mutex) (last, lastMarked int, done, killed bool) {
+func runOnce(f Family, tier string, lo, hi int, markAll bool, skip []string, opt Options, res *Result, mu *sync.Mutex) (lastMarked int, label string, done, killed bool) {
 	ma := "0"
 	if markAll {
 		ma = "1"
 	}
-	cmd := exec.Command(os.Args[0], "--worker", f.Name, tier, strconv.Itoa(lo), strconv.Itoa(hi), ma)
+	skb, _ := json.Marshal(skip)
+	cmd := exec.Command(os.Args[0], "--worker", f.Name, tier, strconv.Itoa(lo), strconv.Itoa(hi), ma, string(skb))
 	cmd.Env = append(os.Environ(), opt.Env...)
 	if opt.SingleProc {
 		cmd.Env = append(cmd.Env, "GOMAXPROCS=1")
@@ -261,6 +301,7 @@ func runOnce(f Family, tier string, lo, hi int, markAll bool, opt Options, res *
 		var m struct {
 			T      string           `json:"t"`
 			I      int              `json:"i"`
+			L      string           `json:"l"`
 			Key    string           `json:"key"`
 			What   string           `json:"what"`
 			Replay any              `json:"replay"`
@@ -275,7 +316,7 @@ func runOnce(f Family, tier string, lo, hi int, markAll bool, opt Options, res *
 		mu.Lock()
 		switch m.T {
 		case "r":
-			lastMarked = m.I
+			lastMarked, label = m.I, m.L
 		case "v":
 			res.Violations = append(res.Violations, Violation{Idx: m.I, Key: m.Key, What: m.What, Replay: m.Replay})
 		case "d":
@@ -297,5 +338,5 @@ func runOnce(f Family, tier string, lo, hi int, markAll bool, opt Options, res *
 	}
 	_ = cmd.Wait()
 	close(finished)
-	return last, lastMarked, done, killed
+	return lastMarked, label, done, killed
 }
